@@ -65,6 +65,7 @@ def finishDeser (st : DState) (i : Nat) (chk : Bool) (bytes : List Nat)
 def opsCodec : Handler := fun st toks =>
   let b? (t : String) := (parseSlot 'b' t).bind fun i => (st.getB i).map fun s => (i, s)
   match toks with
+  | "note" :: _ => some (st, "ok")      -- generator annotations (shape / corruption labels), echoed by both sides
   | ["ser", d] => do
     let (_, sl) ← b? d
     pure (st, specMark (showBytes (Bitmap.serialize sl.m)) (showBytes (Spec.encode sl.s)))
@@ -95,6 +96,19 @@ def opsCodec : Handler := fun st toks =>
       | .ok (m, rest) => Except.ok (m, rest.length)
       | .error e => .error e
     pure (finishDeser st i chk bytes r)
+  | ["deser_trunc", mode, d, k, h] => do
+    let chk ← parseMode mode; let i ← parseSlot 'b' d; let k ← parseU64 k; let full ← parseHex h
+    let bytes := full.take k
+    let r := match deserialize chk st.dbg bytes with
+      | .ok (m, rest) => Except.ok (m, rest.length)
+      | .error e => .error e
+    -- a strict prefix of a conformant stream must be an error (C14)
+    match Spec.decode full, r with
+    | some (_, srest), .ok (m, rest) =>
+      if k < full.length - srest.length then
+        pure (st.setB i ⟨m, Bitmap.elems m⟩, specMark (showDeser chk m rest) "err")
+      else pure (finishDeser st i chk bytes r)
+    | _, _ => pure (finishDeser st i chk bytes r)
   | ["deser_sched", mode, d, sc, h] => do
     let chk ← parseMode mode; let i ← parseSlot 'b' d; let cyc ← parseSched sc; let bytes ← parseHex h
     let r := match deserializeSched chk st.dbg bytes (expandSched cyc (bytes.length + 2)) with
